@@ -472,6 +472,13 @@ func val2(c *Ctx) {
 // rangeElem recognises v = slice[i] where i is the index of a `for range` loop
 // over slice (rotated rangeindex form) and returns the slice.
 func rangeElem(v ssa.Value) (slice ssa.Value, ok bool) {
+	if ix, isIx := v.(*ssa.Index); isIx {
+		// an array value indexed by the loop counter (`for _, x := range table` over an array)
+		if _, isArr := ix.X.Type().Underlying().(*types.Array); isArr && isLoopIndexOver(ix.Index, ix.X) {
+			return ix.X, true
+		}
+		return nil, false
+	}
 	ld, isLd := v.(*ssa.UnOp)
 	if !isLd || ld.Op != token.MUL {
 		return nil, false
@@ -540,6 +547,10 @@ func isLoopIndexOver(idx, slice ssa.Value) bool {
 	cond, isBo := iff.Cond.(*ssa.BinOp)
 	if !isBo || cond.Op != token.LSS || cond.X != ssa.Value(phi) {
 		return false
+	}
+	if arr, isArr := slice.Type().Underlying().(*types.Array); isArr {
+		n, isC := ir.ConstInt(cond.Y)
+		return isC && n == arr.Len()
 	}
 	lc, isCall := cond.Y.(*ssa.Call)
 	if !isCall {
@@ -1177,4 +1188,17 @@ func val7(c *Ctx) {
 			c.Check(ok, Q(fn)+":append", fn.Pos(), "appends one element at the end of the current content", "Set does not append to the current content")
 		}
 	}
+}
+
+// elemIndex: the index expression of an element read slice[i] / array[i] (see rangeElem).
+func elemIndex(v ssa.Value) ssa.Value {
+	if ix, ok := v.(*ssa.Index); ok {
+		return ix.Index
+	}
+	if ld, ok := v.(*ssa.UnOp); ok {
+		if ia, isIA := ld.X.(*ssa.IndexAddr); isIA {
+			return ia.Index
+		}
+	}
+	return nil
 }
